@@ -94,3 +94,9 @@ package erro
 //@   props C13
 //@   assigns nothing
 //@   ensures typed_as_named: result != nil && typeof(result) == typeid(*TypeNotFound)
+
+// CauseBy/Cause only walk the chain (no side effects).
+//@ trusted func CauseBy
+//@   pure
+//@ trusted func Cause
+//@   pure
